@@ -2,6 +2,7 @@ package main
 
 import (
 	"fmt"
+	"math/big"
 	"os"
 	"sort"
 	"strconv"
@@ -22,6 +23,9 @@ const (
 	second = int64(1000000000)
 	now0   = int64(1700000000) * second
 )
+
+// denormal is the smallest positive double, 2^-1074, as a rational.
+var denormal = "1/" + new(big.Int).Lsh(big.NewInt(1), 1074).String()
 
 func pickI64(r *hx.Rand, xs ...int64) int64 { return xs[r.Intn(len(xs))] }
 
@@ -207,7 +211,8 @@ func gen(r *hx.Rand) []string {
 				}
 			}
 			prob := "0"
-			switch r.Pick(40, 40, 8, 6, 6) {
+			// any double can come back from storage: in range, exactly 0 / 1, out of range, denormal, non-finite
+			switch r.Pick(36, 36, 6, 5, 5, 4, 3, 3, 2) {
 			case 1:
 				prob = fmt.Sprintf("%d/1024", 1+r.Intn(1023))
 			case 2:
@@ -216,6 +221,14 @@ func gen(r *hx.Rand) []string {
 				prob = "3/2"
 			case 4:
 				prob = "-1/4"
+			case 5:
+				prob = "NaN"
+			case 6:
+				prob = "+Inf"
+			case 7:
+				prob = "-Inf"
+			case 8:
+				prob = denormal
 			}
 			line += fmt.Sprintf(" %d:%s:%s", sc, prob, strings.Join(os, ","))
 		}
